@@ -45,8 +45,46 @@ def validator_for(vm):
     return coerce
 
 
+class ObjItem(object):
+    """items as objects (TraitList.tla: Twin / NotSelfEqual): tok names the object (105, 106, 107); == goes by eq class (105 and
+    106 are equal, 107 equals nothing, itself included); ordering and % go by tok, so sort() works"""
+    __slots__ = ("tok",)
+
+    def __init__(self, tok):
+        self.tok = tok
+
+    def __eq__(self, other):
+        return type(other) is ObjItem and self.tok != 107 and other.tok != 107 and {self.tok, other.tok} <= {105, 106}
+
+    def __ne__(self, other):
+        return not self.__eq__(other)
+
+    def __hash__(self):
+        return 5
+
+    def __lt__(self, other):
+        return self.tok < (other.tok if type(other) is ObjItem else other)
+
+    def __gt__(self, other):
+        return self.tok > (other.tok if type(other) is ObjItem else other)
+
+    def __mod__(self, k):
+        return self.tok % k
+
+    def __repr__(self):
+        return "Obj%d" % self.tok
+
+    def __reduce__(self):
+        return (ObjItem, (self.tok,))
+
+
+OBJ = {105: ObjItem(105), 106: ObjItem(106), 107: ObjItem(107)}
+
+
 def conc(vm, x):
     """abstract item -> python object"""
+    if vm == "id" and x in OBJ:
+        return OBJ[x]
     if vm == "id" or x in VALID:
         return x                   # (under "once" the int itself: that validator rejects it, as the specification says)
     if x in (11, 12, 13):
@@ -55,6 +93,8 @@ def conc(vm, x):
 
 
 def proj_item(x):
+    if type(x) is ObjItem:
+        return x.tok
     return x if type(x) is int else 777
 
 
@@ -159,6 +199,8 @@ def _validator(vm):
 
 def _raw(vm, x):
     """the form in which a valid item is HANDED to the list so that it ends up stored as x"""
+    if vm == "id" and x in OBJ:
+        return OBJ[x]
     return str(x) if vm == "once" and type(x) is int and x in VALID else x
 
 
@@ -224,7 +266,7 @@ def _execute(pre, op, a, xs, vm, owner=0):
             ret, other = perform(tl, op, a, xs, vm, True)
             if other is not None:
                 # copies: equal content, the original untouched and silent; the copy is what we project
-                if type(other) is not TraitList or list(tl) != list(pre):
+                if type(other) is not TraitList or [proj_item(x) for x in tl] != list(pre):
                     exc = "CopyBroken"
                 post = [proj_item(x) for x in other]
             else:
@@ -264,12 +306,12 @@ def _execute_owner(pre, op, a, xs, vm, events):
 
 def _finish(pre, op, a, xs, vm, post, exc, ret, events):
     # builtin list on the validated arguments (checks the specification's own list semantics)
-    bl = list(pre)
+    bl = [_raw(vm, x) if vm == "id" else x for x in pre]
     try:
         if op == "remove":
             vxs = [conc(vm, x) for x in xs]           # (the argument of remove is not validated)
         else:
-            vxs = [(_validator(vm)(conc(vm, x)) if _validator(vm) else x) for x in xs]
+            vxs = [(_validator(vm)(conc(vm, x)) if _validator(vm) else conc(vm, x)) for x in xs]
         if op == "construct":
             bl = list(vxs)
         elif op == "copy":
@@ -277,7 +319,7 @@ def _finish(pre, op, a, xs, vm, post, exc, ret, events):
         else:
             perform(bl, op, a, vxs, "id", False)
     except Exception:
-        bl = list(pre)
+        bl = [_raw(vm, x) if vm == "id" else x for x in pre]
     return {"op": op, "a": list(a), "xs": list(xs), "vm": vm, "pre": list(pre), "post": post,
             "exc": exc, "ret": NONE if ret is None else proj_item(ret), "evs": events,
             "builtin": [proj_item(x) for x in bl]}
@@ -325,6 +367,9 @@ def history_lines(seed, ntraces, steps, maxlen=9):
     for t in range(ntraces):
         vm = rnd.choice(["id", "coerce", "once"])
         items = [1, 2, 3, 4] + ([11, 12, 99] if vm == "id" else [])
+        objmode = vm == "id" and rnd.random() < 0.5        # items as objects: twins and a not-self-equal one
+        if objmode:
+            items = [105, 106, 107, 1]
         cur = [rnd.choice(items) for _ in range(rnd.randint(0, 6))]
         own = 1 if rnd.random() < 0.3 else 0
         for _ in range(steps):
@@ -334,7 +379,7 @@ def history_lines(seed, ntraces, steps, maxlen=9):
             ro = lambda: NONE if rnd.random() < 0.25 else ri()
             a = [0, 0, 0]
             xs = []
-            argitems = [1, 2, 3, 4, 11, 12, 13, 99]
+            argitems = [105, 106, 107, 1, 105, 106, 107, 2] if objmode else [1, 2, 3, 4, 11, 12, 13, 99]
             if op in ("setitem", "insert"):
                 a[0] = ri()
                 xs = [rnd.choice(argitems)]
@@ -342,12 +387,12 @@ def history_lines(seed, ntraces, steps, maxlen=9):
                 xs = [rnd.choice(argitems if op == "append" else items + [3])]
             elif op == "setslice":
                 a = [ro(), ro(), rnd.choice([NONE, 1, 1, 2, 3, -1, -2, -3, 0, 4, -4])]
-                xs = [rnd.choice([1, 2, 3, 4, 11, 12] + ([99] if rnd.random() < 0.1 else []))
+                xs = [rnd.choice(([105, 106, 107, 1] if objmode else [1, 2, 3, 4, 11, 12]) + ([99] if rnd.random() < 0.1 else []))
                       for _ in range(rnd.randint(0, 4))]
                 if a[2] not in (NONE, 1, 0) and rnd.random() < 0.7:
                     # make extended-slice sizes match most of the time
                     k = len(range(*slice(_opt(a[0]), _opt(a[1]), a[2]).indices(n)))
-                    xs = [rnd.choice([1, 2, 3, 4, 11]) for _ in range(k)]
+                    xs = [rnd.choice([105, 106, 107, 1] if objmode else [1, 2, 3, 4, 11]) for _ in range(k)]
             elif op == "delslice":
                 a = [ro(), ro(), rnd.choice([NONE, 1, 2, 3, -1, -2, -3, 0, 4])]
             elif op == "delitem":
@@ -390,6 +435,22 @@ def run(rep, tier, seed):
         if tot["ncases"] == 0:
             raise MachineryError("no cases in dump")
         rep.case(tot["ncases"])
+        # items as objects (equal-but-distinct twins, an item that is not equal to itself): second enumeration
+        res2 = tlc.run_tlc("TraitListMC", "TraitListMC_objects_%s.cfg" % tier, dump=dump, coverage=False, timeout=3000, workers=8)
+        rep.add_tlc("TraitListMC[objects]", res2)
+        trace2 = os.path.join(work, "trace2.ndjson")
+        tot2 = cases.run_dump_cases(dump + ".dump", case_fn, out_ndjson=trace2, reps=3)
+        os.unlink(dump + ".dump")
+        if tot2["ncases"] == 0:
+            raise MachineryError("no object-item cases in dump")
+        with open(trace, "a") as out, open(trace2) as f2:
+            shutil.copyfileobj(f2, out)
+        os.unlink(trace2)
+        for k in ("ncases", "nlines", "nfail"):
+            tot[k] += tot2[k]
+        tot["fails"] = (tot["fails"] + tot2["fails"])[:60]
+        rep.case(tot2["ncases"])
+        rep.extra["object_item_cases"] = tot2["ncases"]
         for f in tot["fails"]:
             rep.violation(f[0], f[1], case=f[2])
         if tot["nfail"] > len(tot["fails"]):
